@@ -66,6 +66,12 @@ def run(idx: Index, rep: Report, tier: str):
     check_symmetry_operators(idx, rep, tier)
     check_penalties(idx, rep)
     check_reordering(idx, rep)
+    # "for all parameter values": a parameter vector also reaches the circuit through update_var_params; the particle-conserving structure is that
+    # of the *built* circuit, so the updated circuit has to be the built one (necessary condition, decided as in C07)
+    from . import C07
+    for cname in ("UCCSD", "UpCCGSD"):
+        c = next(k for k in idx.subclasses(idx.cls(f"{C07.ANSATZ}::Ansatz")) if k.name == cname)
+        C07.check_update_equals_rebuild(idx, rep, c)
 
 
 def check_symmetry_operators(idx: Index, rep: Report, tier: str):
